@@ -13,12 +13,16 @@
    So each block is   step : state -> inputs -> state   and   out : state -> inputs -> outputs.
 
    A register is a `cell` = (the leaf's attribute self.value [UNMASKED], the value of its q wire).
-   At power-up value = reset_value but the q wire is 0 (storage.py:89, base.py:334). *)
+   At power-up value = reset_value and the constructor puts it on q (storage.py:90-91: self.q.put(self.value)),
+   so the q wire shows reset_value masked to its width from construction on. *)
 From V Require Import Base.PyInt Gen.WireOps Gen.Helpers Gen.Prims Gen.Seq Spec.C09.
 
 (* ------------------------------------------------------------------ Reg (storage.py:31-110) *)
 Definition cell := (Reg_state * Z)%type.
-Definition cell0 (rv : Z) : cell := ({| Reg_s_value := rv |}, 0).
+(* Reg.__init__: self.value = reset_value; self.q.put(self.value) *)
+Definition cell_init (w rv : Z) : cell := ({| Reg_s_value := rv |}, Wire_put w rv).
+(* every register inside the structural blocks has reset_value 0: cell_init w 0 for every w (Wire_put w 0 computes to 0) *)
+Definition cell_zero : cell := ({| Reg_s_value := 0 |}, 0).
 Definition cell_value (c : cell) : Z := Reg_s_value (fst c).
 Definition cell_q (c : cell) : Z := snd c.
 (* one edge: Reg.clock() then settle of q.  he/hr: the enable / reset port exists *)
@@ -106,7 +110,7 @@ Fixpoint delay_step (w : Z) (he hr : bool) (cs : list cell) (a e r : Z) : list c
   | [] => []
   | c :: rest => reg_edge w he hr 0 c a e r :: delay_step w he hr rest (cell_q c) e r
   end.
-Definition delay_init (delay : nat) : list cell := repeat (cell0 0) delay.
+Definition delay_init (delay : nat) : list cell := repeat cell_zero delay.
 Definition delay_out (wr : Z) (cs : list cell) (a : Z) : Z := Buf_propagate wr (last (map cell_q cs) a).
 
 (* ------------------------------------------------------------------ PipelinePhase (storage.py:190-202)
@@ -116,7 +120,7 @@ Fixpoint pipe_step (ws : list Z) (cs : list cell) (ins : list Z) (reset : Z) : l
   | w :: ws', c :: cs', a :: ins' => reg_edge w false true 0 c a 0 reset :: pipe_step ws' cs' ins' reset
   | _, _, _ => []
   end.
-Definition pipe_init (ws : list Z) : list cell := map (fun _ => cell0 0) ws.
+Definition pipe_init (ws : list Z) : list cell := map (fun _ => cell_zero) ws.
 
 (* ------------------------------------------------------------------ EdgeDetector (clock.py:63-93)
    a is 1 bit (checked by the constructor); z1, na, nz1 1 bit; Reg(a, z1).
@@ -145,7 +149,7 @@ Definition edge_step (c : cell) (a : Z) : cell := reg_edge 1 false false 0 c a 0
    reset <- Constant(0) [1 bit] when no reset port.  ModuloCounter(mod=n, inc, reset, q, carryout=t);
    TReg(t, enable=inc, q=clkout, reset=reset).  State: (counter register, toggle register). *)
 Definition clkdiv_state := (cell * cell)%type.
-Definition clkdiv_init : clkdiv_state := (cell0 0, cell0 0).
+Definition clkdiv_init : clkdiv_state := (cell_zero, cell_zero).
 Definition clkdiv_step (n qw wclk : Z) (hr : bool) (s : clkdiv_state) (reset : Z) : clkdiv_state :=
   let inc := Constant_propagate 1 1 in
   let reset' := if hr then reset else Constant_propagate 1 0 in
@@ -166,7 +170,7 @@ Fixpoint srb_step (w : Z) (cs : list cell) (vl right_in sl shift : Z) : list cel
   end.
 Definition srb_edge (w : Z) (cs : list cell) (left_in right_in sl sr : Z) : list cell :=
   srb_step w cs left_in right_in sl (Or2_propagate 1 sl sr).
-Definition srb_init (depth : nat) : list cell := repeat (cell0 0) depth.
+Definition srb_init (depth : nat) : list cell := repeat cell_zero depth.
 Definition srb_left_out (w : Z) (cs : list cell) : Z := Buf_propagate w (hd 0 (map cell_q cs)).
 Definition srb_right_out (w : Z) (cs : list cell) : Z := Buf_propagate w (last (map cell_q cs) 0).
 
@@ -175,7 +179,7 @@ Definition srb_right_out (w : Z) (cs : list cell) : Z := Buf_propagate w (last (
    shift_left=pop, shift_right=push, depth);  Reg(pre_dout, dout, enable=pop).
    (the `empty` / `full` ports are declared but nothing drives them) *)
 Definition stack_state := (list cell * cell)%type.
-Definition stack_init (depth : nat) : stack_state := (srb_init depth, cell0 0).
+Definition stack_init (depth : nat) : stack_state := (srb_init depth, cell_zero).
 Definition stack_step (w : Z) (s : stack_state) (din push pop : Z) : stack_state :=
   let zerow := Constant_propagate w 0 in
   let pre_dout := srb_left_out w (fst s) in
@@ -190,6 +194,19 @@ Definition mem_step (wr : Z) (s : mem_state) (ra wa we wd : Z) : mem_state :=
   SynchronousMemory_clock wr (fst s) ra wa we wd.
 Definition mem_data (s : mem_state) : list Z := SynchronousMemory_s_data (fst s).
 Definition mem_out (s : mem_state) : Z := snd s.
+
+(* ------------------------------------------------------------------ DualPortSynchronousMemory (storage.py:309-353)
+   the REGENERATED clock(): prepare readdata_a, prepare readdata_b, then port a's write, then port b's write.
+   state = (self.data, (readdata_a wire, readdata_b wire)); input = (port a, port b), each (read_address, write_address, write, writedata) *)
+Definition dp_state := (DualPortSynchronousMemory_state * (Z * Z))%type.
+Definition dp_init (aw : Z) : dp_state := ({| DualPortSynchronousMemory_s_data := repeat 0 (Z.to_nat (2 ^ aw)) |}, (0, 0)).
+Definition dp_step (wra wrb : Z) (s : dp_state) (i : (Z * Z * Z * Z) * (Z * Z * Z * Z)) : dp_state :=
+  let '((raa, waa, wa, wda), (rab, wab, wb, wdb)) := i in
+  let '(st, o) := DualPortSynchronousMemory_clock wra wrb (fst s) raa waa wa wda rab wab wb wdb in
+  (st, (DualPortSynchronousMemory_o_readdata_a o, DualPortSynchronousMemory_o_readdata_b o)).
+Definition dp_data (s : dp_state) : list Z := DualPortSynchronousMemory_s_data (fst s).
+Definition dp_out_a (s : dp_state) : Z := fst (snd s).
+Definition dp_out_b (s : dp_state) : Z := snd (snd s).
 
 (* ------------------------------------------------------------------ AutoReset (clock.py:97-113)
    a clock() that prepares nothing leaves the wire as it is *)
